@@ -535,3 +535,25 @@ pub fn pool_reuse(property: &'static str) -> ReplCell {
     };
     c
 }
+
+/// An existing mapped reference is re-pointed (mutated in place) at an entity spawned in the
+/// same tick, while its holder also has a removal or an insertion in that tick.
+pub fn reref(property: &'static str) -> ReplCell {
+    let mut c = base("reref", property);
+    c.cfg.with_r = true;
+    c.init = vec![Op::Spawn(0, AB), Op::Spawn(1, M_A), Op::InsRef(0, 1)];
+    c.ops_per_round = 3;
+    // (the new entity gets a component set nobody had before, so that its archetype - and its
+    // record in the message - comes after the holder's)
+    c.alphabet = vec![Op::Nop, Op::Spawn(2, M_B), Op::MutRef(0, 2), Op::Rm(0, TB), Op::Mut(0, TA), Op::MutRef(0, 1)];
+    c.rounds = 1;
+    c.tick_choice = false;
+    c.env = Env {
+        hold_acks: false,
+        hold_updates: 1,
+        mutations: MutMenu::Hold,
+        leftover_choice: false,
+        lossy: false,
+    };
+    c
+}
